@@ -209,7 +209,21 @@ pub fn run(o: &Opts) -> Report {
     let mut lines: Vec<String> = cases.iter().map(|c| c.line.clone()).collect();
     let mut imps: Vec<String> = cases.iter().map(|c| c.imp.clone()).collect();
     for r in &results {
-        let p = root.join(r).unwrap();
+        // a join RESULT must itself be a valid (canonical) argument: joining it onto the root gives it back
+        let p = match guarded(|| root.join(r)) {
+            Ok(Ok(p)) => p,
+            other => {
+                rep.fail(Fail {
+                    oracle: "prop".into(),
+                    signature: "join-result-not-canonical".into(),
+                    what: format!("a join returned {:?}, which is not a canonical path: joining it onto the root {}", r, if other.is_err() { "panics" } else { "is rejected as invalid" }),
+                    script: vec![format!("join {} {}", enc_str(""), enc_str(r))],
+                    impl_out: r.clone(),
+                    model_out: String::new(),
+                });
+                continue;
+            }
+        };
         if p.as_str() != r {
             rep.fail(Fail {
                 oracle: "prop".into(),
